@@ -104,6 +104,7 @@ def ops():
 
 
 SPECIAL = ["copy", "deepcopy", "pickle"]
+EXTRA = ["uneven_tensor_split", "out_argument", "grid_history"]  # probes that build their own subjects
 # operations that change values but move no data between positions: the carrier is left as it is
 ELEMENTWISE = {"add_scalar", "mul_self", "neg", "sin", "abs", "clamp", "where", "sub_tensor", "pow", "sqrt_abs", "float", "double", "to_dtype", "long", "type_as"}
 
@@ -158,22 +159,22 @@ def sources(t):
 def plan(tier, seed):
     names = sorted(ops())
     items = [["op", s, n] for s in SUBJECTS for n in names + SPECIAL]
+    items += [["extra", s, n] for s in SUBJECTS for n in EXTRA]
     items += [["program", k] for k in range(N_PROGRAMS[tier])]
     return items
 
 
 def mandatory(tier):
-    return [f"subject/{s.split('/')[0]}" for s in SUBJECTS] + ["programs", "special/copy", "special/deepcopy", "special/pickle", "special/grids/mixed_flags", "special/grids/shared", "special/grids/fractional", "typed_results", "plain_results"]
+    return [f"subject/{s.split('/')[0]}" for s in SUBJECTS] + ["programs", "special/copy", "special/deepcopy", "special/pickle", "special/grids/mixed_flags", "special/grids/shared", "special/grids/fractional", "typed_results", "plain_results", "extra/uneven_tensor_split", "extra/out_argument", "extra/grid_history"]
 
 
-def make_subject(kind, D=2, variant="distinct"):
+def make_subject(kind, D=2, variant="distinct", N=3):
     import torch
     from deepali.core.grid import Axes, Grid
     from deepali.data.flow import FlowField, FlowFields
     from deepali.data.image import Image, ImageBatch
 
     shape = (4, 5) if D == 2 else (3, 4, 5)
-    N = 3
     C = D if kind.startswith("Flow") else 2
     grids = [Grid(shape=shape, origin=tuple([10.0 * (i + 1)] + [0.0] * (D - 1)), spacing=tuple([1.0 + 0.5 * i] * D)) for i in range(N)]
     if variant == "mixed_flags":  # equal geometry (Grid.__eq__ is true), only the align_corners flag tells items apart
@@ -270,8 +271,65 @@ def judge(ctx, name, kind, res, car, grids, axes, batched):
 def run_item(ctx, item):
     if item[0] == "program":
         return program(ctx, item[1])
+    if item[0] == "extra":
+        return extra(ctx, item[1], item[2])
     _, kind, name = item
     return single(ctx, kind, name)
+
+
+def extra(ctx, kind, name):
+    r"""Probes with their own subjects: larger batches, results written into an existing object, grid changes in a history."""
+    import torch
+
+    batched = kind in ("ImageBatch",) or kind.startswith("FlowFields")
+    info = dict(op=name, subject=kind)
+    ctx.nontriv(kind, name)
+    if name == "uneven_tensor_split" and batched:
+        # torch's rule for an integer number of sections: the first N % n parts are one larger
+        for N, sections in ((4, 3), (5, 4), (5, 3), (7, 3), (7, 4), (6, 4)):
+            x, car, grids, axes = make_subject(kind, D=2, N=N)
+            with ctx.guard("tensor_split(uneven)", key=f"exc/uneven_tensor_split/{kind.split('/')[0]}", N=N, sections=sections, **info):
+                for form, fn in (("method", lambda t_: t_.tensor_split(sections)), ("function", lambda t_: torch.tensor_split(t_, sections)), ("keyword", lambda t_: torch.tensor_split(t_, sections=sections, dim=0))):
+                    judge(ctx, f"tensor_split{sections}of{N}/{form}", kind, fn(x), fn(car), grids, axes, batched)
+                ctx.bucket("extra/uneven_tensor_split")
+    elif name == "out_argument" and batched:
+        # a result written into an existing batch (out=) describes what it now holds
+        x, car, grids, axes = make_subject(kind, D=2)
+        y, _, ygrids, _ = make_subject(kind, D=2, variant="shared")
+        with ctx.guard("out=", key=f"exc/out_argument/{kind.split('/')[0]}", **info):
+            for oname, call in (("mul", lambda a, o: torch.mul(a, 2, out=o)), ("add", lambda a, o: torch.add(a, 1, out=o)), ("neg", lambda a, o: torch.neg(a, out=o)), ("clamp", lambda a, o: torch.clamp(a, min=-1e9, out=o))):
+                out_obj = make_subject(kind, D=2, variant="shared")[0]
+                res = call(x, out_obj)
+                cres = call(car, torch.empty_like(car))
+                if oname in ("mul", "add", "neg"):
+                    cres = car  # provenance: entry i still comes from item i
+                judge(ctx, f"out/{oname}", kind, res, cres, grids, axes, batched)
+                ctx.true("out_argument_is_the_result", res is out_obj or not hasattr(res, "grids"), key="out/identity", op_name=oname, **info)
+            ctx.bucket("extra/out_argument")
+    elif name == "grid_history" and not batched:
+        # single images / flow fields: a method that goes through the batch view, then the grid is replaced, then methods again
+        from deepali.core.grid import Grid
+
+        x, car, grids, axes = make_subject(kind, D=2)
+        with ctx.guard("grid history", key=f"exc/grid_history/{kind}", **info):
+            g_old = x.grid()
+            g_new = Grid(shape=tuple(g_old.shape), origin=(-3.0, 7.0), spacing=(0.25, 2.0))
+            first = x.narrow(1, 0, 2) if hasattr(x, "narrow") else x
+            x.batch()
+            x.grid_(g_new)
+            checks = {"narrow": lambda t_: t_.narrow(1, 0, 2).grid() == g_new.narrow(1, 0, 2), "batch": lambda t_: t_.batch().grid() == g_new, "crop": lambda t_: t_.crop(num=0 if False else (0, 0, 1, 1)).grid() == g_new.crop(num=(0, 0, 1, 1)), "clone": lambda t_: t_.clone().grid() == g_new, "add": lambda t_: (t_ + 1).grid() == g_new, "resize": lambda t_: t_.resize(6, 5).grid() == g_new.resize(6, 5), "grid": lambda t_: t_.grid() == g_new}
+            for cname, chk in checks.items():
+                ok = False
+                try:
+                    ok = bool(chk(x))
+                except Exception as e:  # noqa: BLE001
+                    ctx.exceptions[f"grid_history/{cname}:{type(e).__name__}"] += 1
+                    continue
+                ctx.true("methods_after_grid_change_use_the_new_grid", ok, key=f"grid_history/{cname}", method=cname, **info)
+            ctx.true("result_obtained_before_the_change_keeps_the_old_grid", first.grid() == g_old.narrow(1, 0, 2) if hasattr(first, "grid") else True, key="grid_history/earlier_result", **info)
+            ctx.bucket("extra/grid_history")
+    else:
+        ctx.count("extra_not_applicable")
 
 
 def single(ctx, kind, name):
